@@ -30,7 +30,15 @@ def make_fasta(rng, nprot, path, subset_every=5):
     peps_of = []
     lines = []
     for i in range(nprot):
-        if i % 7 == 6 and peps_of:
+        if i % 9 == 7 and peps_of and peps_of[-1]:
+            # a paralog: shares the first peptide of its predecessor, the rest is its own
+            peps = [peps_of[-1][0]]
+            for _ in range(int(rng.integers(2, 4))):
+                ln = int(rng.integers(7, 13))
+                peps.append("".join(AA[int(j)] for j in rng.integers(0, len(AA), ln)) + "KR"[int(rng.integers(0, 2))])
+        elif i % 9 == 8 and len(peps_of) >= 2 and peps_of[-1]:
+            peps = [peps_of[-1][0]]          # a fragment contained in BOTH paralogs (two non-nested supersets)
+        elif i % 7 == 6 and peps_of:
             peps = list(peps_of[-1])         # indistinguishable proteins: same sequence under another name (isoform entry)
         elif i % subset_every == subset_every - 1 and peps_of:
             peps = peps_of[-1][:2]
